@@ -7,6 +7,7 @@
   real processes behave like this model on interleavings at call granularity.
 -/
 import Shm.Model.Multi
+import Shm.Lemmas.MultiInv
 import Shm.Props.C05
 namespace Shm.C15
 open Shm
@@ -104,6 +105,22 @@ theorem C15_switch_view_known (m : MState) (i : Nat) (q : State) (hi : i ≠ m.c
   have : (i == m.cur) = false := by simpa using hi
   simp only [this, Bool.false_eq_true, if_false, hq]
   exact C15_adopt_view q m.st hc
+
+/-- **no interleaving duplicates an object or mixes up identities**: after ANY sequence of calls by ANY processes in ANY interleaving at call granularity, object
+    identities are pairwise distinct in the process that ran last and in every other one, and the identity of a session object of one process occurs in no other process
+    (so a session object can never be mistaken for, or overwrite, an object another process sees) -/
+theorem C15_interleaving_no_duplicates (steps : List (Nat × AnyCall)) :
+    OidNodup (mrun {} steps).st ∧
+    ∀ e ∈ (mrun {} steps).procs, OidNodup e.2 ∧ Apart e.2 (mrun {} steps).st ∧ Apart (mrun {} steps).st e.2 := by
+  have h := minv_run steps {} minv_init
+  exact ⟨h.nodup, fun e he => ⟨(h.parked e he).nodup, (h.parked e he).out, (h.parked e he).inn⟩⟩
+
+/-- … in particular what the next call sees of the committed store lists every object once -/
+theorem C15_view_lists_once (steps : List (Nat × AnyCall)) : ((C05.tokView (mrun {} steps).st).map (·.1)).Nodup := by
+  have h := (minv_run steps {} minv_init).nodup
+  unfold C05.tokView
+  rw [List.map_map]
+  exact List.Nodup.sublist (List.Sublist.map _ List.filter_sublist) h
 
 /-- non-vacuity: two processes that list one token under different slot numbers; an object created by the first is seen by the second under its own numbering -/
 example :
